@@ -22,13 +22,18 @@ CLAIMS = {
              "FALSE with the buffer untouched).",
         ref="5 C02"),
     "C16": dict(
-        technique="TLA+ Dispatch spec with threads: TLC explores all interleavings of slot-wise cache updates "
-                  "(per-thread vs shared cache); threaded runs of the real library validated by TLC "
+        technique="TLA+ Dispatch and Threads specs: TLC explores all interleavings of slot-wise cache updates "
+                  "(per-thread vs shared cache) and of the single reads/writes of validate / lookup / draw under the "
+                  "sharing discipline (race predicate on the access log; four negative configurations); threaded runs of the real library validated by TLC "
                   "(per-thread cache model, ownership of cache addresses, no validation of shared images by workers, "
                   "results equal to the solo run); the same run under ThreadSanitizer",
         text="DispatchMC with two threads: all interleavings of scan / slot-by-slot update steps; transparency holds "
              "with per-thread caches and TLC produces the torn entry when the cache is shared (negative "
-             "configuration). Real library: 2-8 threads execute a seeded request stream on private destinations with "
+             "configuration). ThreadsMC: three workers x three requests from one shared and private sources at the "
+             "grain of single memory accesses: no raced cell and every request sees fully derived state under the "
+             "discipline; lazy first use, a shared cache, worker-side reference counting and lazy implementation "
+             "choice each produce a race. The same access log and race predicate (Threads.tla) are applied by "
+             "DispatchTrace to the cache / validate / reference-count events of the real library. Real library: 2-8 threads execute a seeded request stream on private destinations with "
              "private and pre-validated shared sources (bits+transform, gradient, solid); TLC checks every thread's "
              "Lookup events against its own cache model, that a cache address belongs to one thread, that no worker "
              "finds a shared image dirty, and that every request's bytes equal the single-threaded run; a "
@@ -492,6 +497,14 @@ def run_c16(args):
     rng = random.Random(args.seed * 7 + 16)
     wd = vf.workdir("threads")
     mc(chk, [("T2", False), ("negshared", True)])
+    # Threads.tla: the sharing discipline at the grain of single reads and writes (three workers, three requests each,
+    # one shared and three private sources): race-free and solo-equal under the discipline, one race per removed leg
+    for name, neg in [("", False), ("_live", True), ("_neg_lazy_first_use", True), ("_neg_lazy_first_use_result", True),
+                      ("_neg_shared_cache", True), ("_neg_worker_refs", True), ("_neg_lazy_imp", True)]:
+        r = vf.tlc_mc("ThreadsMC", cfg="ThreadsMC%s.cfg" % name, workers=8, timeout=900, expect_violation=neg)
+        chk.add_tlc(r, ("negative config (must be rejected) " if neg else "model check ") + "ThreadsMC" + name)
+        if not neg and "violated" in r.out:
+            raise vf.Infra("ThreadsMC%s violates its invariants:\n%s" % (name, r.out[-2000:]))
     exe, px = vf.build_driver("drv_dispatch", "plain", cflags=["-pthread"])
     chk.extra["build"] = px["hash"]
     reqs = gen_requests(rng, 600 if quick else 12000, threads=True)
